@@ -22,7 +22,8 @@ CONSTANTS BoundedWalk,   \* TRUE: the link_map walk stops after MaxLinkMaps entr
           WaitHasDeadline,   \* TRUE: the wait for an attached thread's stop gives up after some time; FALSE: waitpid(tid, __WALL) without a bound
           StopOnDecodeError  \* TRUE: the SONAME scan of a module's dynamic section gives up at the first entry it cannot decode; FALSE: it skips it and asks for the next
 
-SpClass  == {"none", "in_stack", "guard", "unmapped", "top_page", "misaligned", "zero"}
+SpClass  == {"none", "in_stack", "guard", "unmapped", "top_page", "misaligned", "zero", "reserved_tail"}   \* reserved_tail: in the inaccessible reservation behind a module's text, which is folded
+                                                                                                           \* into the module (with the skip rule on and that module the principal one: the stack copy is shorter than the SP offset)
 IpClass  == {"interior", "first_bytes", "last_bytes", "unmapped", "zero", "max"}
 PhnumClass == {"true", "zero", "larger", "huge", "alloc_huge"}   \* huge: count * entry size overflows; alloc_huge: it does not, but no such buffer can be allocated
 AppClass == {"none", "small", "unmapped", "len_over_isize", "len_64TiB"}   \* a caller-requested memory region
